@@ -19,7 +19,7 @@ from .graph import Mismatch
 
 INV = ["TicksInside", "TicksNeighbours", "TicksProportional", "TicksExtremes"]
 QUICK = dict(MaxN=24, Sizes={2, 3, 7}, Units={1, 10}, Batches={1, 7, 25}, MaxUlp=2)
-THOROUGH = dict(MaxN=40, Sizes={2, 3, 5, 7, 13}, Units={1, 2, 10}, Batches={1, 2, 3, 7, 25, 29}, MaxUlp=3)
+THOROUGH = dict(MaxN=32, Sizes={2, 3, 5, 7, 13}, Units={1, 2, 10}, Batches={1, 2, 7, 25, 29}, MaxUlp=3)  # measured: MaxN=40 with 6 batch sizes took 27 min for the whole thorough check
 FIRST_ROUNDS = 3  # stratified rounds that go through sample_batch (the others call the sampler method directly)
 
 
